@@ -35,7 +35,8 @@
 (*   a -> v                   {arg: ta, value: tv}                         *)
 (*   Sum (+=) : Num -> Num;  Min, Max : t -> t;  Count : t -> Num;         *)
 (*   List, Set : t -> [t] (t not a list);  ArgMin, ArgMax :                *)
-(*   {arg: ta, value: tv} -> ta                                            *)
+(*   {arg: ta, value: tv} -> ta  (ta not a list: on SQLite they are built  *)
+(*   from ArgMinK / ArgMaxK, which collect the arguments in a list)        *)
 (*   P(f: e, ...)             e : type of column f of P; P must have f     *)
 (*   F(f: e, ...) as a value  ... and the type of F's logica_value         *)
 (*   l == r (conjunct)        l : t, r : t                                 *)
@@ -64,7 +65,7 @@ TO(fs) == <<"O", fs>>
 NoFields == ("$" :> TNum)
 Tg(t) == t[1]
 
-TypingDeviations == {"neq_untyped", "if_cond_untyped"}
+TypingDeviations == {"neq_untyped", "if_cond_untyped", "closed_records_widen"}
 
 IsRec(t) == Tg(t) \in {"R", "O"}
 ElemOf(t) == IF Tg(t) = "L" THEN t[2] ELSE TAny
@@ -79,21 +80,24 @@ IsGround(t) ==
     [] OTHER -> FALSE
 
 (* Meet: the most general type that is both a and b; Bad if there is none. *)
-RECURSIVE Meet(_, _)
-MeetRec(a, b) ==
+(* wide (deviation "closed_records_widen" only): two closed records one of  *)
+(* which has all the fields of the other meet in the wider one.             *)
+RECURSIVE MeetD(_, _, _)
+MeetRec(a, b, wide) ==
   LET da == DOMAIN a[2]
       db == DOMAIN b[2]
-      shape == IF Tg(a) = "R" /\ Tg(b) = "R" THEN (IF da = db THEN "R" ELSE "Bad")
+      shape == IF Tg(a) = "R" /\ Tg(b) = "R"
+               THEN (IF da = db \/ (wide /\ (da \subseteq db \/ db \subseteq da)) THEN "R" ELSE "Bad")
                ELSE IF Tg(a) = "R" THEN (IF db \subseteq da THEN "R" ELSE "Bad")
                ELSE IF Tg(b) = "R" THEN (IF da \subseteq db THEN "R" ELSE "Bad")
                ELSE "O"
       fs == [f \in da \cup db |->
-               IF f \in da /\ f \in db THEN Meet(a[2][f], b[2][f])
+               IF f \in da /\ f \in db THEN MeetD(a[2][f], b[2][f], wide)
                ELSE IF f \in da THEN a[2][f] ELSE b[2][f]]
   IN IF shape = "Bad" \/ \E f \in DOMAIN fs : Tg(fs[f]) = "Bad" THEN TBad
      ELSE <<shape, fs>>
 
-Meet(a, b) ==
+MeetD(a, b, wide) ==
   IF a = b THEN a
   ELSE IF Tg(a) = "Bad" \/ Tg(b) = "Bad" THEN TBad
   ELSE IF Tg(a) = "Any" THEN b
@@ -103,9 +107,12 @@ Meet(a, b) ==
   ELSE IF Tg(a) = "Seq" THEN (IF Tg(b) \in {"Str", "L"} THEN b ELSE TBad)
   ELSE IF Tg(b) = "Seq" THEN (IF Tg(a) \in {"Str", "L"} THEN a ELSE TBad)
   ELSE IF Tg(a) = "L" /\ Tg(b) = "L"
-  THEN LET e == Meet(Meet(a[2], b[2]), TSing) IN IF Tg(e) = "Bad" THEN TBad ELSE TL(e)
-  ELSE IF IsRec(a) /\ IsRec(b) THEN MeetRec(a, b)
+  THEN LET e == MeetD(MeetD(a[2], b[2], wide), TSing, wide) IN IF Tg(e) = "Bad" THEN TBad ELSE TL(e)
+  ELSE IF IsRec(a) /\ IsRec(b) THEN MeetRec(a, b, wide)
   ELSE TBad
+
+Meet(a, b) == MeetD(a, b, FALSE)
+MeetC(ctx, a, b) == MeetD(a, b, "closed_records_widen" \in ctx.dev)
 
 RECURSIVE LitType(_)
 LitType(v) ==
@@ -131,8 +138,8 @@ LitType(v) ==
 St0 == [env |-> ("$" :> TAny), bad |-> {}]
 Res(t, st) == [t |-> t, st |-> st]
 Clash(st, why) == [st EXCEPT !.bad = @ \cup {why}]
-Fit(t, want, st, why) ==
-  LET m == Meet(t, want)
+FitC(ctx, t, want, st, why) ==
+  LET m == MeetC(ctx, t, want)
   IN IF Tg(m) = "Bad" THEN Res(IF Tg(t) = "Bad" THEN want ELSE t, Clash(st, why)) ELSE Res(m, st)
 
 EnvOf(st, key) == IF key \in DOMAIN st.env THEN st.env[key] ELSE TAny
@@ -176,30 +183,34 @@ ChkCall(p, args, i, ren, path, ctx, st) ==
 (* aggregate `op` applied to expression e (the body, if any, was handled) *)
 ChkAgg(op, e, want, ren, path, ctx, st) ==
   CASE op = "Sum" ->
-         LET r == Chk(e, TNum, ren, path, ctx, st) IN Fit(TNum, want, r.st, "Sum gives Num")
+         LET r == Chk(e, TNum, ren, path, ctx, st) IN FitC(ctx, TNum, want, r.st, "Sum gives Num")
     [] op = "Count" ->
-         LET r == Chk(e, TAny, ren, path, ctx, st) IN Fit(TNum, want, r.st, "Count gives Num")
+         LET r == Chk(e, TAny, ren, path, ctx, st) IN FitC(ctx, TNum, want, r.st, "Count gives Num")
     [] op \in {"Min", "Max"} -> Chk(e, want, ren, path, ctx, st)
     [] op \in {"List", "Set"} ->
-         LET w == Meet(want, TL(TSing))
+         LET w == MeetC(ctx, want, TL(TSing))
          IN IF Tg(w) = "Bad" THEN Res(want, Clash(Chk(e, TSing, ren, path, ctx, st).st, op \o " gives a list"))
-            ELSE LET r == Chk(e, Meet(ElemOf(w), TSing), ren, path, ctx, st) IN Res(TL(r.t), r.st)
+            ELSE LET r == Chk(e, MeetC(ctx, ElemOf(w), TSing), ren, path, ctx, st) IN Res(TL(r.t), r.st)
     [] op \in {"ArgMin", "ArgMax"} ->
-         LET r == Chk(e, TR(("arg" :> want) @@ ("value" :> TAny) @@ NoFields), ren, path, ctx, st)
-         IN Res(FieldOf(r.t, "arg"), r.st)
+         \* on the SQLite engine ArgMin / ArgMax are built from ArgMinK / ArgMaxK,
+         \* which collect the arguments in a list: the argument is not a list
+         LET w == MeetC(ctx, want, TSing)
+             r == Chk(e, TR(("arg" :> (IF Tg(w) = "Bad" THEN TSing ELSE w)) @@ ("value" :> TAny) @@ NoFields),
+                      ren, path, ctx, st)
+         IN FitC(ctx, FieldOf(r.t, "arg"), want, r.st, op \o " gives its argument, which is not a list")
     [] OTHER -> Res(want, Clash(st, "unknown aggregate " \o op))
 
 Chk(e, want, ren, path, ctx, st) ==
   CASE e.k = "var" ->
          LET key == ren[e.name]
              cur == EnvOf(st, key)
-             m == Meet(cur, want)
+             m == MeetC(ctx, cur, want)
          IN IF Tg(m) = "Bad" THEN Res(cur, Clash(st, "variable " \o e.name))
             ELSE IF m = cur THEN Res(m, st)
             ELSE Res(m, [st EXCEPT !.env = (key :> m) @@ @])
-    [] e.k = "lit" -> Fit(LitType(e.v), want, st, "literal")
+    [] e.k = "lit" -> FitC(ctx, LitType(e.v), want, st, "literal")
     [] e.k = "list" ->
-         LET w == Meet(want, TL(TSing))
+         LET w == MeetC(ctx, want, TL(TSing))
          IN IF Tg(w) = "Bad"
             THEN Res(want, Clash(ChkItems(e.items, 1, TSing, ren, path, ctx, st).st, "list literal"))
             ELSE LET r1 == ChkItems(e.items, 1, ElemOf(w), ren, path, ctx, st)
@@ -207,7 +218,7 @@ Chk(e, want, ren, path, ctx, st) ==
                            ELSE ChkItems(e.items, 1, r1.t, ren, path, ctx, r1.st)
                  IN Res(TL(r2.t), r2.st)
     [] e.k = "rec" ->
-         LET w == Meet(want, TO(NoFields))
+         LET w == MeetC(ctx, want, TO(NoFields))
              ww == IF Tg(w) = "Bad" THEN TO(NoFields) ELSE w
              RECURSIVE Go(_, _, _)
              Go(i, acc, s) ==
@@ -215,10 +226,10 @@ Chk(e, want, ren, path, ctx, st) ==
                ELSE LET r == Chk(e.fields[i].e, FieldOf(ww, e.fields[i].f), ren, Sub(path, i), ctx, s)
                     IN Go(i + 1, (e.fields[i].f :> r.t) @@ acc, r.st)
              lit == Go(1, NoFields, st)
-         IN Fit(lit.t, want, lit.st, "record literal")
+         IN FitC(ctx, lit.t, want, lit.st, "record literal")
     [] e.k = "sub" ->
          LET r == Chk(e.e, TO((e.f :> want) @@ NoFields), ren, Sub(path, 1), ctx, st)
-         IN Res(Meet(FieldOf(r.t, e.f), want), r.st)
+         IN Res(MeetC(ctx, FieldOf(r.t, e.f), want), r.st)
     [] e.k = "if" ->
          LET c == Chk(e.c, IF "if_cond_untyped" \in ctx.dev THEN TAny ELSE TBool,
                       ren, Sub(path, 1), ctx, st)
@@ -228,7 +239,7 @@ Chk(e, want, ren, path, ctx, st) ==
          IN IF e.p \notin DOMAIN ctx.sig THEN Res(want, s1)
             ELSE IF "logica_value" \notin DOMAIN ctx.sig[e.p]
             THEN Res(want, Clash(s1, "predicate " \o e.p \o " is not a function"))
-            ELSE Fit(ctx.sig[e.p]["logica_value"], want, s1, "value of " \o e.p)
+            ELSE FitC(ctx, ctx.sig[e.p]["logica_value"], want, s1, "value of " \o e.p)
     [] e.k = "agg" ->
          LET ren2 == Enter(ren, path, DVE(e.e) \cup DVBody(e.body))
              s1 == ChkBody(e.body, ren2, Sub(path, 1), ctx, st)
@@ -238,12 +249,12 @@ Chk(e, want, ren, path, ctx, st) ==
          CASE op \in {"+", "*", "-"} /\ Len(a) = 2 ->
                 LET r1 == Chk(a[1], TNum, ren, Sub(path, 1), ctx, st)
                     r2 == Chk(a[2], TNum, ren, Sub(path, 2), ctx, r1.st)
-                IN Fit(TNum, want, r2.st, op \o " gives Num")
+                IN FitC(ctx, TNum, want, r2.st, op \o " gives Num")
            [] op = "-" /\ Len(a) = 1 ->
                 LET r1 == Chk(a[1], TNum, ren, Sub(path, 1), ctx, st)
-                IN Fit(TNum, want, r1.st, "- gives Num")
+                IN FitC(ctx, TNum, want, r1.st, "- gives Num")
            [] op = "++" ->
-                LET w == Meet(want, TSeq)
+                LET w == MeetC(ctx, want, TSeq)
                 IN IF Tg(w) = "Bad"
                    THEN Res(want, Clash(ChkSame(a[1], a[2], TSeq, ren, path, ctx, st).st, "++ gives Str or a list"))
                    ELSE ChkSame(a[1], a[2], w, ren, path, ctx, st)
@@ -253,31 +264,31 @@ Chk(e, want, ren, path, ctx, st) ==
                 IN Res(want, r2.st)
            [] op \in CmpOps ->
                 LET r == ChkSame(a[1], a[2], TAny, ren, path, ctx, st)
-                IN Fit(TBool, want, r.st, op \o " gives Bool")
+                IN FitC(ctx, TBool, want, r.st, op \o " gives Bool")
            [] op \in {"&&", "||"} ->
                 LET r1 == Chk(a[1], TBool, ren, Sub(path, 1), ctx, st)
                     r2 == Chk(a[2], TBool, ren, Sub(path, 2), ctx, r1.st)
-                IN Fit(TBool, want, r2.st, op \o " gives Bool")
+                IN FitC(ctx, TBool, want, r2.st, op \o " gives Bool")
            [] op = "!" ->
                 LET r1 == Chk(a[1], TBool, ren, Sub(path, 1), ctx, st)
-                IN Fit(TBool, want, r1.st, "! gives Bool")
+                IN FitC(ctx, TBool, want, r1.st, "! gives Bool")
            [] op = "isnull" ->
                 LET r1 == Chk(a[1], TAny, ren, Sub(path, 1), ctx, st)
-                IN Fit(TBool, want, r1.st, "is null gives Bool")
+                IN FitC(ctx, TBool, want, r1.st, "is null gives Bool")
            [] op = "Size" ->
                 LET r1 == Chk(a[1], TL(TSing), ren, Sub(path, 1), ctx, st)
-                IN Fit(TNum, want, r1.st, "Size gives Num")
+                IN FitC(ctx, TNum, want, r1.st, "Size gives Num")
            [] op = "Element" ->
-                LET w == Meet(want, TSing)
+                LET w == MeetC(ctx, want, TSing)
                     r1 == Chk(a[1], TL(IF Tg(w) = "Bad" THEN TSing ELSE w), ren, Sub(path, 1), ctx, st)
                     r2 == Chk(a[2], TNum, ren, Sub(path, 2), ctx, r1.st)
-                IN Fit(ElemOf(r1.t), want, r2.st, "Element gives an element")
+                IN FitC(ctx, ElemOf(r1.t), want, r2.st, "Element gives an element")
            [] op = "->" ->
-                LET w == Meet(want, TO(NoFields))
+                LET w == MeetC(ctx, want, TO(NoFields))
                     ww == IF Tg(w) = "Bad" THEN TO(NoFields) ELSE w
                     r1 == Chk(a[1], FieldOf(ww, "arg"), ren, Sub(path, 1), ctx, st)
                     r2 == Chk(a[2], FieldOf(ww, "value"), ren, Sub(path, 2), ctx, r1.st)
-                IN Fit(TR(("arg" :> r1.t) @@ ("value" :> r2.t) @@ NoFields), want, r2.st, "-> gives a record")
+                IN FitC(ctx, TR(("arg" :> r1.t) @@ ("value" :> r2.t) @@ NoFields), want, r2.st, "-> gives a record")
            [] OTHER -> Res(want, Clash(st, "operator outside the fragment: " \o op))
 
 ChkConj(c, ren, path, ctx, st) ==
@@ -286,7 +297,7 @@ ChkConj(c, ren, path, ctx, st) ==
     [] c.k = "unify" -> ChkSame(c.l, c.r, TAny, ren, path, ctx, st).st
     [] c.k = "inc" ->
          LET rl == Chk(c.r, TL(TSing), ren, Sub(path, 2), ctx, st)
-             rx == Chk(c.l, Meet(ElemOf(rl.t), TSing), ren, Sub(path, 1), ctx, rl.st)
+             rx == Chk(c.l, MeetC(ctx, ElemOf(rl.t), TSing), ren, Sub(path, 1), ctx, rl.st)
          IN IF rx.t = ElemOf(rl.t) THEN rx.st
             ELSE Chk(c.r, TL(rx.t), ren, Sub(path, 2), ctx, rx.st).st
     [] c.k = "neg" ->
@@ -352,7 +363,7 @@ RuleInfer(r, p, ctx) ==
       parts == [k \in 1..Len(bodies) |-> RuleInfer1([r EXCEPT !.body = bodies[k]], p, ctx)]
       cols == DOMAIN parts[1].head
       RECURSIVE MeetAll(_, _)
-      MeetAll(f, k) == IF k = 0 THEN TAny ELSE Meet(MeetAll(f, k - 1), parts[k].head[f])
+      MeetAll(f, k) == IF k = 0 THEN TAny ELSE MeetC(ctx, MeetAll(f, k - 1), parts[k].head[f])
       head == [f \in cols |-> MeetAll(f, Len(parts))]
   IN [head |-> [f \in cols |-> IF Tg(head[f]) = "Bad" THEN TAny ELSE head[f]],
       bad |-> UNION {parts[k].bad : k \in 1..Len(parts)}
@@ -384,7 +395,9 @@ RoundOnce(prog, sig, dev) ==
                  shape == IF HeadCols(r) \cup {"$"} = DOMAIN sg[p] THEN {}
                           ELSE {"rules of " \o p \o " have different columns"}
                  cols == [f \in DOMAIN sg[p] |->
-                            IF f \in DOMAIN ri.head THEN Meet(sg[p][f], ri.head[f]) ELSE sg[p][f]]
+                            IF f \in DOMAIN ri.head
+                            THEN MeetD(sg[p][f], ri.head[f], "closed_records_widen" \in dev)
+                            ELSE sg[p][f]]
                  clash == {"column " \o f \o " of " \o p : f \in {g \in DOMAIN cols : Tg(cols[g]) = "Bad"}}
                  cols2 == [f \in DOMAIN cols |-> IF Tg(cols[f]) = "Bad" THEN sg[p][f] ELSE cols[f]]
              IN Go(k + 1, [sg EXCEPT ![p] = cols2],
